@@ -96,6 +96,17 @@ fn main() {
                 adapter::Compiled::Panicked(p) => println!("PANIC {} at {}", p.message, p.location),
             }
         }
+        "stubgen" => {
+            // debugging aid: tfv stubgen <sdl-file> <outdir>
+            let sdl = std::fs::read_to_string(&args[2]).expect("sdl");
+            let out = std::path::PathBuf::from(&args[3]);
+            let _ = std::fs::create_dir_all(&out);
+            match adapter::catch(move || trustfall_stubgen::generate_rust_stub(&sdl, &out).map_err(|e| format!("{e:#}"))) {
+                Ok(Ok(())) => println!("GENERATED"),
+                Ok(Err(e)) => println!("ERROR {e}"),
+                Err(p) => println!("PANIC {} at {}", p.message, p.location),
+            }
+        }
         "dump" => {
             // print a few generated queries (debugging aid)
             let mut rng = rng::Rng::new(seed);
@@ -113,6 +124,7 @@ fn main() {
                 "C01" => checks::c01::run(&mut report, seed, cases),
                 "C09" => checks::c09::run(&mut report, seed, cases),
                 "C22" => checks::c22::run(&mut report, seed, cases),
+                "C26-gen" => checks::c26::run(&mut report, seed, cases, &arg_val(&args, "--outdir").expect("--outdir")),
                 "C20" => checks::c20::run(&mut report, seed, cases),
                 "C25" => checks::c25::run(&mut report, seed, cases),
                 "C19" => checks::c19::run(&mut report, seed, cases),
